@@ -100,6 +100,7 @@ T_KINDS = (
     + [dict(kind='periodic_gaussian_t_profile', direction=d, pnum=3, jitter=False) for d in ('up', 'down')]
     + [dict(kind='periodic_gaussian_t_profile', direction='down', pnum=3, jitter=False, deep=True)]
     + [dict(kind='periodic_gaussian_t_profile', direction='up', pnum=pn, jitter=False, negphase=True) for pn in (1, 3)]
+    + [dict(kind='periodic_gaussian_t_profile', direction='up', pnum=3, jitter=False, pnum_np=ty) for ty in ('uint8', 'int16')]
     + [dict(kind='custom'), dict(kind='array'), dict(kind='list'), dict(kind='float'), dict(kind='int')]
     + [dict(kind='float', np='float32'), dict(kind='int', np='uint8'), dict(kind='float', np='0d')]
 )
@@ -239,6 +240,8 @@ def concretise(case, fs, ts):
         tsp = dict(kind=k, pulse_width=1.2 * dt, period=2.5 * dt, phase=0.3 * dt,
                    pulse_offset_width=(0.4 * dt if t['jitter'] else 0), pulse_direction=t['direction'],
                    pnum=t['pnum'], amplitude=0.8, level=1.0, min_level=0.3, seed=2000 + 13 * seed)
+        if t.get('pnum_np'):
+            tsp['pnum_np'] = t['pnum_np']          # the pulse count as a numpy fixed-width integer
         if t.get('negphase'):
             # a delayed pulse train: the phase is below -period/4, so the first rows lie before the first pulse centre
             tsp.update(phase=-0.9 * dt)
@@ -353,13 +356,20 @@ def case_signal(case):
     kw = call_kwargs(case, bound)
 
     # ---- reference (independent of the call below) ---------------------------------------------
-    ref = RS.reference_signal(
-        fs, ts, fr.df, fr.dt, RS.ref_path(ps), RS.ref_t_profile(tsp), RS.ref_f_profile(fsp), RS.ref_bp_profile(bsp),
-        integrate_path=case['ip'], integrate_t_profile=case['it'], integrate_f_profile=case['fi'],
-        doppler_smearing=case['sm'],
-        t_subsamples=case['tsub'] if case['tsub'] is not None else 10,
-        f_subsamples=case['fsub'] if case['fsub'] is not None else 10,
-        smearing_subsamples=case['ssub'] if case['ssub'] is not None else 10)
+    try:
+        ref = RS.reference_signal(
+            fs, ts, fr.df, fr.dt, RS.ref_path(ps), RS.ref_t_profile(tsp), RS.ref_f_profile(fsp), RS.ref_bp_profile(bsp),
+            integrate_path=case['ip'], integrate_t_profile=case['it'], integrate_f_profile=case['fi'],
+            doppler_smearing=case['sm'],
+            t_subsamples=case['tsub'] if case['tsub'] is not None else 10,
+            f_subsamples=case['fsub'] if case['fsub'] is not None else 10,
+            smearing_subsamples=case['ssub'] if case['ssub'] is not None else 10)
+    except Exception as e:
+        # the reference of a stochastic family is a same-seed twin of the shipped function itself: if THAT refuses its
+        # documented arguments, the refusal is the library's
+        V('raised_%s/family_function' % type(e).__name__, 'the shipped family function refused its arguments: %s: %s | path=%s t=%s f=%s bp=%s'
+          % (type(e).__name__, str(e)[:200], ps, tsp, fsp, bsp))
+        return {'viol': viol, 'outcomes': ['family_raised/%s' % type(e).__name__]}
     cls = RS.bounding_classes(fs, fr.df, bound[0], bound[1]) if bound is not None else ['in'] * n
 
     # ---- implementation ------------------------------------------------------------------------
